@@ -507,17 +507,19 @@ func scenarioC12(c *hlib.RunCtx) *hlib.Violation {
 				truncated = true
 			}
 		case 2: // oversize: pad with a huge unapproved-looking but ignored field? no: pad inside a string so the JSON stays one value
-			pad := strings.Repeat("y", maxRequestBytes)
+			// (padding is white space between the opening brace and the first key:
+			// it changes the size of the body and nothing any decoder could object to)
+			pad := strings.Repeat(" ", maxRequestBytes)
 			if len(body) > 1 && body[0] == '{' && body[1] != '}' {
-				body = []byte(`{"LastWeek":"` + pad + `",` + string(body[1:]))
+				body = []byte("{" + pad + string(body[1:]))
 			} else {
-				body = []byte(`{"LastWeek":"` + pad + `"}`)
+				body = []byte("{" + pad + `"LastWeek":""}`)
 			}
 			wantValid, why = false, "oversize body"
 		case 3, 4: // one byte below the size limit, exactly at it, one byte above it
 			d := t.Draw(3) - 1
-			if pad := maxRequestBytes + d - len(body) - 14; pad >= 0 && len(body) > 1 && body[0] == '{' && body[1] != '}' {
-				body = []byte(`{"LastWeek":"` + strings.Repeat("y", pad) + `",` + string(body[1:]))
+			if pad := maxRequestBytes + d - len(body); pad >= 0 && len(body) > 1 && body[0] == '{' && body[1] != '}' {
+				body = []byte("{" + strings.Repeat(" ", pad) + string(body[1:]))
 				s.Probe(fmt.Sprintf("body-at-limit%+d", d))
 			}
 		}
@@ -599,7 +601,8 @@ func scenarioC12(c *hlib.RunCtx) *hlib.Violation {
 			fail("server-error", "request %q (%s) was answered %d", why, method, rec.Code)
 			break
 		}
-		if wantValid && decorated >= 2 && rec.Code >= 400 && rec.Code < 500 {
+		if wantValid && decorated >= 1 && rec.Code >= 400 && rec.Code < 500 {
+			// (also for fields the report format does not have: a server may take them for contents that are not approved)
 			// refused because of the bytes after the value: allowed, nothing may change
 			if !reflect.DeepEqual(before, after) {
 				fail("invalid-stored", "request %q (%s) was answered %d but the storage changed: %v -> %v", why, method, rec.Code, before, after)
@@ -711,10 +714,30 @@ func scenarioC12(c *hlib.RunCtx) *hlib.Violation {
 				overlapped = true
 			case <-doneA:
 			}
-			recB := post(rb)
+			// The second request is served while the first is stopped. An
+			// implementation that serves one upload at a time would make it wait for
+			// the first: after a short while (real time; only such an implementation
+			// ever gets there) the first is let go and the pair is not judged.
+			var recB *httptest.ResponseRecorder
+			doneB := make(chan struct{})
+			go func() { recB = post(rb); close(doneB) }()
+			serialised := false
 			if overlapped {
+				select {
+				case <-doneB:
+				case <-time.After(3 * time.Second):
+					serialised = true
+				}
 				close(theBucket.release)
 				<-doneA
+			}
+			<-doneB
+			if serialised {
+				s.Probe("uploads-are-serialised")
+				c.Sample = map[string]any{"requests": cases}
+				return viol
+			}
+			if overlapped {
 				s.Probe("overlapping-uploads")
 				s.Probe("overlap-at-" + at)
 			}
@@ -970,7 +993,8 @@ func scenarioC11(c *hlib.RunCtx) *hlib.Violation {
 				pr.Stacks = map[string]int64{}
 			}
 			what := ""
-			switch t.Draw(10) {
+			mkind := t.Draw(10)
+			switch mkind {
 			case 8:
 				// a key of the other kind: a stack-shaped key among the counters (an
 				// approved counter's or stack's name, a newline, more text)
@@ -1017,7 +1041,19 @@ func scenarioC11(c *hlib.RunCtx) *hlib.Violation {
 			h.ServeHTTP(rec, req)
 			muts++
 			s.Logf("mutant", "%s -> %d (model: approved=%v)", what, rec.Code, ok)
-			if ok && rec.Code != 200 {
+			// The server must accept what the uploader produces: a changed report that
+			// is still inside the configuration but that no uploader would build (one
+			// build listed twice, a key of the other kind's shape) may be refused.
+			producible := mkind != 8 && mkind != 9
+			seenBuild := map[string]bool{}
+			for _, q := range m.Programs {
+				k := q.Program + "\x00" + q.Version + "\x00" + q.GoVersion + "\x00" + q.GOOS + "\x00" + q.GOARCH
+				if seenBuild[k] {
+					producible = false
+				}
+				seenBuild[k] = true
+			}
+			if ok && producible && rec.Code != 200 {
 				fail("server-rejects-approved", "report changed to %s is inside the configuration but the server answered %d: %s", what, rec.Code, strings.TrimSpace(rec.Body.String()))
 			}
 			if !ok && rec.Code < 400 {
